@@ -150,7 +150,11 @@ def mode_program(rng, ctr, viols, nontrivial):
     samples = [lines.sample(o, rng, radix=False) for o in seq]
     # only opcode-level mode is used to build the shape; field-level modes are taken into account below
     modes = [ins_mode(s) for s in samples]
-    src = "#pragma version 8\n" + "\n".join(s["text"] for s in samples) + "\nint 1\nreturn\n"
+    # the declared version is independent of the classification: instructions that are too new for it are
+    # reported as unsupported AND still count for the mode
+    declared = rng.choice([None, 1, 2, 4, 5, 8, 8, 8])
+    head = "" if declared is None else "#pragma version %d\n" % declared
+    src = head + "\n".join(s["text"] for s in samples) + "\nint 1\nreturn\n"
     has_app, has_sig = "app" in modes, "sig" in modes
     op_app = any(A.OPS[s["op"]]["mode"] == "app" for s in samples)
     op_sig = any(A.OPS[s["op"]]["mode"] == "sig" for s in samples)
@@ -163,7 +167,8 @@ def mode_program(rng, ctr, viols, nontrivial):
         ctr["mode_program_tealer_raised"] += 1
         return
     ctr["mode_programs_checked"] += 1
-    nontrivial.append(common.h(["mode", tuple(sorted(set(seq))), shape]))
+    nontrivial.append(common.h(["mode", tuple(sorted(set(seq))), shape, declared]))
+    ctr["mode_programs_declared_%s" % declared] += 1
     mode = str(o.teal.mode)  # Stateless / Stateful / Any
     ctype = str(o.teal.contract_type)
     mixed_msg = MIXED in o.stderr
